@@ -443,6 +443,18 @@ theorem finish_isDone_inv (p : Out → Bool) (c : Cfg) (hd : c.isDone = true)
   | done s' r => exact h s' r rfl
   | run _ _ _ => cases hd
 
+theorem json_ctype_ok : hdrEntryOK ("Content-Type".toList, [HVal.good "application/json".toList]) = true := by
+  decide
+
+theorem defaultHandler_ok (p : Out → Bool) (hp : Internal p) (s : Slots) (r : RState) (body : Out)
+    (s' : Slots) (o : Out) (hs : s.resp.ok = true) (h : defaultHandler s r body = some (s', o)) :
+    s'.resp.ok = true ∧ Out.all p o = true := by
+  rcases defaultHandler_cases s r body s' o h with ⟨rfl, rfl⟩ | ⟨j, rfl, rfl⟩
+  · exact ⟨hs, hp.text _⟩
+  · refine ⟨?_, hp.text _⟩
+    rw [RState.ok_iff] at hs ⊢
+    exact ⟨hs.1, Hdrs.set_all _ _ _ _ hs.2.1 json_ctype_ok, hs.2.2⟩
+
 theorem castOut_inv (p : Out → Bool) (hp : Internal p) (hsub : ∀ o, Out.all p o = true → respOK o = true)
     (app : App) (hall : app.all p = true)
     (fw : Bool) (cnt : Nat) (s : Slots) (out : Out) (hs : s.resp.ok = true) (ho : Out.all p out = true) :
@@ -461,7 +473,10 @@ theorem castOut_inv (p : Out → Bool) (hp : Internal p) (hsub : ∀ o, Out.all 
     have hs' : (withResp s (apply r s.resp)).resp.ok = true := apply_ok r s.resp hr hs
     simp only
     split
-    · exact ⟨hs', hp.text _⟩
+    · split
+      · exact hs'
+      · rename_i s'' o hd
+        exact defaultHandler_ok p hp _ _ _ _ _ hs' hd
     · rename_i o heh
       exact ⟨hs', errHandler_all p app hall r.code _ heh⟩
     · exact ⟨hs', Out.all_body p _ _ _ ho⟩
@@ -502,9 +517,12 @@ theorem step_inv (p : Out → Bool) (hp : Internal p) (hsub : ∀ o, Out.all p o
     unfold step
     simp only
     split
-    · apply castOut_inv p hp hsub app hall
-      · exact apply_ok _ _ e500_ok h.1
-      · exact hp.text _
+    · have hs' := apply_ok _ _ e500_ok h.1
+      split
+      · exact hs'
+      · rename_i s'' o hd
+        have := defaultHandler_ok p hp _ _ _ _ _ hs' hd
+        exact castOut_inv p hp hsub app hall fw _ s'' o this.1 this.2
     · exact castOut_inv p hp hsub app hall fw _ s out h.1 h.2
 
 /-- `_cast` leaves the response object well formed -/
